@@ -96,8 +96,15 @@ IsEvent(e) == l <= Len(Trace) /\ Trace[l].ev = e /\ l' = l + 1
 \* (judged by the specification's own printer) and must be valid - otherwise the recorder is broken.
 TLoad ==
   /\ IsEvent("load")
-  /\ LET ev == Trace[l] p == PosOfJson(ev.pos) IN
-       /\ Expect(FenOf(p) = ev.fen, ev, IF Has(ev, "canon") THEN "C11/fen-parse" ELSE "INFRA/fen-projection", "", [fen |-> ev.fen, projected |-> FenOf(p)])
+  /\ LET ev == Trace[l]
+         got == PosOfJson(ev.pos)
+         \* the root is what the FEN text MEANS (the harness's own reading of it, checked against the spec's printer),
+         \* not what the implementation made of it: a misread root is an observation (C11) and the game goes on
+         \* from the position the text denotes
+         p == IF Has(ev, "want") THEN PosOfJson(ev.want) ELSE got
+     IN
+       /\ Expect(FenOf(p) = ev.fen, ev, IF Has(ev, "want") THEN "INFRA/harness-fen-reading" ELSE IF Has(ev, "canon") THEN "C11/fen-parse" ELSE "INFRA/fen-projection", "", [fen |-> ev.fen, projected |-> FenOf(p)])
+       /\ Expect(got = p, ev, "C11/fen-parse", "", [fen |-> ev.fen, projected |-> FenOf(got)])
        /\ Expect(Valid(p), ev, "INFRA/invalid-root", "", [fen |-> ev.fen])
        /\ LoadFEN(p, HashOf(ev), SnapOf(ev))
        /\ rootBad' = ~EpNormalised(p)
